@@ -361,6 +361,51 @@ def do_write(rng, obj, w, extra):
 	return None
 
 
+def run_refusal(chk, spec):
+	"""a table-level write that cannot be kept local (one of the target columns still shares a caller-supplied tuple with a live vector) is refused
+	with AliasError and changes nothing - also the target columns that come before the sharing one"""
+	import random
+	rng = random.Random(spec["seed"])
+	n, c, pos = spec["n"], spec["c"], spec["pos"]
+	tp = tuple(rng.choice([1, 2, 3, 5]) for _ in range(n))
+	sharer = Vector(tp)      # stays alive
+	t = Table([Vector([rng.choice([7, 8, 9]) for _ in range(n)], name=f"c{j}") for j in range(c)])
+	o = call(lambda: setattr(t, f"c{pos}", tp))
+	if not o.ok:
+		chk.skip("refusal-setup-failed")
+		return
+	probe = call(lambda: t.cols()[pos].__setitem__(0, t.cols()[pos]._underlying[0]))
+	shares = (not probe.ok) and isinstance(probe.exc, AliasError)
+	before = M.snap_table(t)
+	sb = M.snap_vector(sharer)
+	i = rng.randrange(n)
+	form = spec["form"]
+	if form == "row":
+		w = call(t.__setitem__, i, [100 + j for j in range(c)])
+	elif form == "row-2d":
+		w = call(t.__setitem__, (i, slice(None)), [100 + j for j in range(c)])
+	elif form == "scalar-broadcast":
+		w = call(t.__setitem__, (slice(None), slice(None)), 55)
+	elif form == "region-list":
+		w = call(t.__setitem__, (slice(None), slice(None)), [[100 + j] * n for j in range(c)])
+	elif form == "region-table":
+		w = call(t.__setitem__, (slice(None), slice(None)), Table([Vector([100 + j] * n, name=f"s{j}") for j in range(c)]))
+	elif form == "mask-rows":
+		w = call(t.__setitem__, ([True] + [False] * (n - 1), [f"c{j}" for j in range(c)]), 66)
+	else:
+		w = call(t.__setitem__, (i, [f"c{j}" for j in range(c)]), [100 + j for j in range(c)])
+	chk.judged("pair", ("refusal", form, c, pos, shares, w.ok))
+	if not shares:
+		chk.counters["refusal-column-did-not-share"] += 1
+	if not w.ok and isinstance(w.exc, AliasError):
+		if M.snap_table(t) != before:
+			chk.fail("a write that cannot be kept local is refused with AliasError and changes nothing", f"frame/refused-write-changed-target/table-{form}",
+				f"{spec!r}: t[...] = ... raised AliasError (column c{pos} shares a caller tuple with a live vector) but the table changed: {short(before, 200)} -> {short(M.snap_table(t), 200)}")
+			return
+	if M.snap_vector(sharer) != sb:
+		chk.fail("a write through one handle leaves every other object unchanged", f"frame/write/table-{form}/victim-sharer", f"{spec!r}: the vector sharing the caller tuple changed")
+
+
 def run_pair(chk, spec):
 	import random
 	rng = random.Random(spec["seed"])
@@ -435,7 +480,7 @@ def run_history(chk, spec):
 		chk.counters["history_steps"] += len(m.trace)
 
 
-RUNNERS = {"pair": run_pair, "history": run_history, "recompute": recompute.runner("C01")}
+RUNNERS = {"refusal": run_refusal, "pair": run_pair, "history": run_history, "recompute": recompute.runner("C01")}
 
 def setup(chk):
 	pool.CENSUS.install()
@@ -453,6 +498,11 @@ def run(chk):
 					continue
 				for rep in range(1 if chk.quick() else 3):
 					chk.case("pair", {"deriv": dname, "write": w, "side": side, "seed": rng.randrange(10**9), "n": rng.choice([1, 2, 3, 4])}, "pair")
+	for form in ("row", "row-2d", "scalar-broadcast", "region-list", "region-table", "mask-rows", "row-names"):
+		for c in (2, 3):
+			for pos in range(c):
+				for rep in range(1 if chk.quick() else 4):
+					chk.case("refusal", {"form": form, "c": c, "pos": pos, "n": rng.choice([1, 2, 3]), "seed": rng.randrange(10**9)}, "refusal")
 	nh = 150 if chk.quick() else 500
 	for i in range(nh):
 		chk.case("history", {"seed": rng.randrange(10**9), "nsteps": rng.choice([15, 30, 30, 60]) if not chk.quick() else rng.choice([15, 30]),
